@@ -745,4 +745,20 @@ func c04Directed(c *Ctx) {
 		rep.Count("directed:goexit_sibling")
 		rep.Eval(fmt.Sprintf("directed|goexit-sibling|%d", trial), true, cs)
 	}
+	// the releases that Stop started run on goroutines of their own: let them finish before the next scenario installs
+	// its recorder
+	c04Settle()
+}
+
+// c04Settle waits until the number of goroutines has stopped changing (at most a second).
+func c04Settle() {
+	last, same := runtime.NumGoroutine(), 0
+	for i := 0; i < 100 && same < 5; i++ {
+		time.Sleep(10 * time.Millisecond)
+		if n := runtime.NumGoroutine(); n == last {
+			same++
+		} else {
+			last, same = n, 0
+		}
+	}
 }
